@@ -132,11 +132,11 @@ Definition not_special (w:word) : Prop :=
 
 Lemma caw_step_after_bs : forall f s line last acc lead w r l,
   nw s1 false s line = TWord w r l -> isq w = false -> not_special w ->
-  weq last [bs] = true ->
+  weq last [bs] = true -> is1 w bs = false ->
   caw (S f) s line false last acc lead = caw f r l false w (w :: acc) lead.
 Proof.
-  intros f s line last acc lead w r l H Hq (H1 & H2 & H3 & H4) Hl.
-  cbn [caw]. rewrite H, Hq, H1, H2, H3, H4, Hl. reflexivity.
+  intros f s line last acc lead w r l H Hq (H1 & H2 & H3 & H4) Hl Hb.
+  cbn [caw]. rewrite H, Hq, H1, H2, H3, H4, Hl, Hb. reflexivity.
 Qed.
 
 Lemma caw_step_same_line : forall f s line last acc lead w r l,
@@ -386,7 +386,8 @@ Proof.
         - apply (caw_step_quoted _ _ _ _ _ _ _ _ _ Hn2 Eq).
         - assert (Hx : weq (mkword [bs] QN line) [bs] = true) by reflexivity.
           pose proof (word_ok_not_special w (S line) Hw Eq) as Hns.
-          rewrite (caw_step_after_bs f _ line (mkword [bs] QN line) acc lead _ _ _ Hn2 Eq Hns Hx).
+          destruct (word_ok_unq w Hw Eq) as (_ & Hb & _).
+          rewrite (caw_step_after_bs f _ line (mkword [bs] QN line) acc lead _ _ _ Hn2 Eq Hns Hx Hb).
           reflexivity. }
       rewrite Hstep. clear Hstep Hn2. subst V.
       assert (Hne' : setl w (S line) :: acc <> [] \/ r <> []) by (left; discriminate).
@@ -734,14 +735,62 @@ Example ex_line_rule_needed :
   words_ok ws = false /\
   parse [] (show_words ws (s_ "x =") (spaces 3) 79) = UErr (s_ "UnexpectedEnd") [] 0.
 Proof. vm_compute. split; reflexivity. Qed.
-(* an unquoted backslash word is printed bare and read back as a continuation marker; such a word
-   list is produced by the parser itself *)
-Example ex_backslash_word_needed :
+(* The exclusion of the lone unquoted backslash from word_ok loses nothing: collect_assigned_words
+   never yields such a word (repaired parser: a lone backslash is a continuation marker wherever it
+   stands), so no parsed tree contains one. *)
+Definition not_bs_word (w:word) : Prop := weq w [bs] = false.
+Lemma weq_bs_is1 : forall w, weq w [bs] = negb (isq w) && is1 w bs.
+Proof. reflexivity. Qed.
+
+Lemma caw_never_yields_backslash_word_acc : forall fuel s line hc last acc lead ws s' l',
+  Forall not_bs_word acc ->
+  caw fuel s line hc last acc lead = Ok (ws, s', l') -> Forall not_bs_word ws.
+Proof.
+  induction fuel as [|f IH]; intros s line hc last acc lead ws s' l' Hacc H; [discriminate|].
+  cbn [caw] in H.
+  assert (Hfin : forall s0' l0',
+            match acc with [] => E "MissingValue" (str_of_word lead) (wline lead)
+                         | _ => Ok (rev acc, s0', l0') end = Ok (ws, s', l') -> Forall not_bs_word ws).
+  { intros s0' l0' Hf. destruct acc as [|a acc']; [discriminate|].
+    inversion Hf; subst. change (rev acc' ++ [a]) with (rev (a :: acc')).
+    apply Forall_forall. intros x Hx. apply in_rev in Hx.
+    revert x Hx. apply Forall_forall. exact Hacc. }
+  destruct (nw s1 false s line) as [|w r l|l]; [eapply Hfin; exact H| |discriminate].
+  destruct (negb hc && negb (isq w) && (is1 w "{" || is1 w "}" || is1 w ";" || is1 w "#")).
+  - destruct (is1 w ";"); [eapply Hfin; exact H|].
+    destruct (negb (is1 w "#")); [eapply Hfin; exact H|].
+    eapply IH; [exact Hacc|exact H].
+  - destruct (isq w || weq last [bs]) eqn:E1.
+    + destruct (hc || (negb (isq w) && is1 w bs)) eqn:E2; [eapply IH; [exact Hacc|exact H]|].
+      apply orb_false_iff in E2 as [_ E2].
+      eapply IH; [|exact H]. constructor; [|exact Hacc]. unfold not_bs_word. rewrite weq_bs_is1. exact E2.
+    + destruct (negb (wline w =? wline last)%nat); [eapply Hfin; exact H|].
+      destruct (hc || is1 w bs) eqn:E2; [eapply IH; [exact Hacc|exact H]|].
+      apply orb_false_iff in E2 as [_ E2].
+      eapply IH; [|exact H]. constructor; [|exact Hacc].
+      unfold not_bs_word. rewrite weq_bs_is1, E2. apply andb_false_r.
+Qed.
+
+Theorem caw_never_yields_backslash_word : forall fuel s line hc last lead ws s' l',
+  caw fuel s line hc last [] lead = Ok (ws, s', l') -> Forall not_bs_word ws.
+Proof. intros. eapply caw_never_yields_backslash_word_acc; [constructor|exact H]. Qed.
+Print Assumptions caw_never_yields_backslash_word.
+
+(* the text whose second backslash used to become a value word is now read as [a; b], the same
+   words its printed form "x = a b" yields *)
+Example ex_double_backslash_text :
   let src := s_ "x = a \ \ b" in
-  let ws := [mkword ["a"] QN 1; mkword [bs] QN 1; mkword ["b"] QN 1] in
+  let ws := [mkword ["a"] QN 1; mkword ["b"] QN 1] in
   parse [] src = Ok [Def (mkhdr ["x"] false 0 false 1 1) ws []]
-  /\ words_ok ws = false
-  /\ show_words ws (s_ "x =") (spaces 3) 79 = s_ "x = a \ b" ++ [nl]
+  /\ words_ok ws = true
+  /\ show_words ws (s_ "x =") (spaces 3) 79 = s_ "x = a b" ++ [nl]
+  /\ parse [] (show_words ws (s_ "x =") (spaces 3) 79) = Ok [Def (mkhdr ["x"] false 0 false 1 1) ws []].
+Proof. vm_compute. repeat split. Qed.
+(* a tree built by hand with a lone unquoted backslash word is outside the domain: it prints as a
+   continuation marker *)
+Example ex_backslash_word_outside_domain :
+  let ws := [mkword ["a"] QN 1; mkword [bs] QN 1; mkword ["b"] QN 1] in
+  words_ok ws = false
   /\ parse [] (show_words ws (s_ "x =") (spaces 3) 79)
      = Ok [Def (mkhdr ["x"] false 0 false 1 1) [mkword ["a"] QN 1; mkword ["b"] QN 1] []].
 Proof. vm_compute. repeat split. Qed.
